@@ -68,3 +68,55 @@ def same_pgn(got, dp, pf, ps, pdu2):
 def quiesce(w, extra='1/2'):
     """let the bus drain and all timers that are due soon fire"""
     w.run(until=w.now + T(extra))
+
+
+# --------------------------------------------------------------------------- CAs in every claim state
+CA_STATES = ('not_started', 'wait_veto', 'normal_veto', 'normal_immediate', 'lost_waiting', 'moved', 'moved_lost_waiting',
+             'moved_twice', 'cannot_claim', 'bypassed')
+
+
+def make_ca(w, node, state, addr, ident, aac=None):
+    """drive a real ControllerApplication on `node` through the named claim history by the real procedure.
+    Returns (ca, address the CA holds according to the HISTORY (not according to the CA's own state) or None).
+    Contending claims are injected from outside with a lower NAME."""
+    import j1939
+    from ..ref import ids
+    if aac is None:
+        aac = state in ('moved', 'lost_waiting', 'moved_lost_waiting', 'moved_twice')
+    name = j1939.Name(arbitrary_address_capable=1 if aac else 0, industry_group=2, function=130, manufacturer_code=700, identity_number=ident)
+    if state == 'bypassed':
+        ca = j1939.ControllerApplication(name, addr, bypass_address_claim=True)
+        node.ecu.add_ca(controller_application=ca)
+        node.cas.append(ca)
+        return ca, addr
+    ca = j1939.ControllerApplication(name, addr)
+    node.ecu.add_ca(controller_application=ca)
+    node.cas.append(ca)
+    if state == 'not_started':
+        return ca, None
+    ca.start(0.01)
+    if state == 'wait_veto':
+        w.run(until=w.now + T('1/20'))
+        return ca, None
+    w.run(until=w.now + T('4/10'))
+    if state in ('normal_veto', 'normal_immediate'):
+        return ca, addr
+    low = j1939.Name(arbitrary_address_capable=0, identity_number=1).value
+
+    def contend(at):
+        cid = (6 << 26) | (0xEE << 16) | (0xFF << 8) | at
+        w.inject(node, cid, ids.name_bytes(low))
+
+    # a contender with a lower NAME claims our address after we became operational
+    contend(addr)
+    if state in ('cannot_claim', 'lost_waiting'):
+        return ca, None
+    # arbitrary address capable -> next address, operational after the next timer tick
+    w.run(until=w.now + T('7/10'))
+    if state == 'moved':
+        return ca, addr + 1
+    contend(addr + 1)
+    if state == 'moved_lost_waiting':
+        return ca, None
+    w.run(until=w.now + T('7/10'))
+    return ca, addr + 2
